@@ -92,7 +92,7 @@ func (router *Router) AddRoute(route *routers.Route) error {
 	if path == "" {
 		return errors.New("route is missing path")
 	}
-	return router.node().Add(method+" "+path, router, nil)
+	return router.node().Add(method+" "+path, route, nil)
 }
 
 func (router *Router) node() *pathpattern.Node {
